@@ -27,6 +27,7 @@ import (
 
 	"github.com/tsawler/tabula"
 	"github.com/tsawler/tabula/layout"
+	"github.com/tsawler/tabula/reader"
 	"github.com/tsawler/tabula/text"
 
 	"verifharness/fw"
@@ -641,6 +642,28 @@ func runPDF(c *fw.Ctx, id string, pc pdfCase, attribute func(pr problem) string)
 		txt("ByColumn.Text", func(e *tabula.Extractor) (string, []tabula.Warning, error) { return e.ByColumn().Text() })
 		txt("JoinParagraphs.Text", func(e *tabula.Extractor) (string, []tabula.Warning, error) { return e.JoinParagraphs().Text() })
 		txt("PreserveLayout.Text", func(e *tabula.Extractor) (string, []tabula.Warning, error) { return e.PreserveLayout().Text() })
+		// text.(*Extractor).GetText, reached through reader.ExtractText
+		if rd, err := reader.Open(pc.path); err != nil {
+			k.probs = append(k.probs, problem{"reader.ExtractText", "error", "reader.Open: " + err.Error(), nil})
+		} else {
+			var sb strings.Builder
+			np, _ := rd.PageCount()
+			for i := 0; i < np; i++ {
+				pg, err := rd.GetPage(i)
+				if err != nil {
+					k.probs = append(k.probs, problem{"reader.ExtractText", "error", "GetPage: " + err.Error(), nil})
+					continue
+				}
+				t, err := rd.ExtractText(pg)
+				if err != nil {
+					k.probs = append(k.probs, problem{"reader.ExtractText", "error", "ExtractText: " + err.Error(), nil})
+				}
+				sb.WriteString(t)
+				sb.WriteByte('\n')
+			}
+			rd.Close()
+			k.text("reader.ExtractText", sb.String())
+		}
 		if ls, err := tabula.Open(pc.path).Lines(); err != nil {
 			k.probs = append(k.probs, problem{"Lines", "error", "Lines: " + err.Error(), nil})
 		} else {
@@ -711,6 +734,49 @@ func buildPDF(c *fw.Ctx, dir string, i int, base *pagegen.Page) pdfCase {
 	return pdfCase{path: path, pages: dev}
 }
 
+// ---------------------------------------------------------- fixed witnesses
+
+// witnesses are small hand-placed pages, one per defect that was found (and
+// fixed) on the pinned tree; they are run on every invocation so that a
+// regression does not depend on the seed.
+func witnesses() []*pagegen.Page {
+	mk := func(name string, w, h float64, frs ...pagegen.Frag) *pagegen.Page {
+		return &pagegen.Page{W: w, H: h, Frags: frs, Lines: len(frs), Features: []string{"witness=" + name}, Spec: pagegen.Spec{Scale: 1}}
+	}
+	fr := func(t string, x, y, w, s float64) pagegen.Frag {
+		return pagegen.Frag{Text: t, X: x, Y: y, W: w, H: s, Size: s}
+	}
+	var out []*pagegen.Page
+	// a word sticking out past the ragged right edge of a single column
+	var f []pagegen.Frag
+	for i := 0; i < 12; i++ {
+		f = append(f, fr(fmt.Sprintf("line%02d of body text that is wide", i), 72, 700-float64(i)*14, 300, 10))
+	}
+	f = append(f, fr("sticks", 380, 700-5*14, 30, 10))
+	out = append(out, mk("protruding-word", 612, 792, f...))
+	// a single-character line
+	out = append(out, mk("single-char-line", 612, 792, fr("First line of text", 72, 700, 90, 10), fr("i", 72, 686, 2.8, 10), fr("Third line of text", 72, 672, 90, 10)))
+	// a scaled-down page: every block is lower than 5 units
+	out = append(out, mk("small-blocks", 153, 198, fr("alpha beta gamma", 18, 175, 40, 2.5), fr("delta epsilon", 18, 160, 32, 2.5)))
+	// a short heading above body text
+	f = []pagegen.Frag{fr("Short", 72, 740, 40, 18)}
+	for i := 0; i < 5; i++ {
+		f = append(f, fr(fmt.Sprintf("body line %d with enough words to be wide", i), 72, 700-float64(i)*14, 300, 10))
+	}
+	out = append(out, mk("short-heading", 612, 792, f...))
+	// a list with a nested item between paragraphs
+	out = append(out, mk("nested-list", 612, 792, fr("Intro paragraph text that is long enough", 72, 740, 300, 10), fr("- one item text", 72, 700, 80, 10),
+		fr("- two nested item", 92, 670, 80, 10), fr("- three item text", 72, 640, 80, 10), fr("Closing paragraph text that is long enough", 72, 600, 300, 10)))
+	// a title spanning two columns
+	f = []pagegen.Frag{fr("A Wide Centered Title Over Both Columns", 150, 740, 300, 18)}
+	for i := 0; i < 10; i++ {
+		f = append(f, fr(fmt.Sprintf("left %d left left left left", i), 72, 700-float64(i)*14, 200, 10))
+		f = append(f, fr(fmt.Sprintf("right %d right right right", i), 330, 700-float64(i)*14, 200, 10))
+	}
+	out = append(out, mk("spanning-title", 612, 792, f...))
+	return out
+}
+
 // ------------------------------------------------------------------- Run
 
 // Run is the C09 check.
@@ -724,6 +790,23 @@ func Run(c *fw.Ctx) {
 
 	dir := filepath.Join(c.Work, "c09")
 	os.MkdirAll(dir, 0o755)
+
+	for _, p := range witnesses() {
+		id := "wit:" + strings.TrimPrefix(p.Features[0], "witness=")
+		if !c.Want(id) {
+			continue
+		}
+		c.Case(id, nontrivial(p))
+		c.Seen("witness", id)
+		frags := toFrags(p)
+		c.Guard("a/witness", id, specDetail(p), func() {
+			report(c, id, "a:default", p, direct(c, frags, p.W, p.H, defaultCfg()), nil)
+		})
+		pc := pdfCase{path: filepath.Join(dir, strings.ReplaceAll(id, ":", "-")+".pdf"), pages: []*pagegen.Page{p}}
+		os.WriteFile(pc.path, pdfw.SimplePDF([]pdfw.SimplePage{p.SimplePage(1, pagegen.PDFMode{})}), 0o644)
+		runPDF(c, id, pc, nil)
+		os.Remove(pc.path)
+	}
 
 	n := c.N(1200, 20000)
 	c.Parallel(n, func(i int) {
